@@ -43,6 +43,14 @@ Proof.
 Qed.
 Print Assumptions vycore_frame.
 
+(* HashMap contents: a written key reads back, other keys (written or not) are unchanged, unwritten keys read the default *)
+Theorem vycore_map_frame :
+  (forall d k v m, mlook d k (mset k v m) = v) /\
+  (forall d k k' v m, k <> k' -> mlook d k' (mset k v m) = mlook d k' m) /\
+  (forall d k, mlook d k [] = d).
+Proof. split; [exact mlook_mset_same|]. split; [exact mlook_mset_other|]. reflexivity. Qed.
+Print Assumptions vycore_map_frame.
+
 (* with the statically computed fuel the interpreter never runs out of fuel *)
 Theorem vycore_terminates : forall P ce idx args sto tra,
   wf_prog P = true ->
@@ -62,5 +70,9 @@ Example vycore_nonvacuous :
   wf_prog demo = true /\
   call_ext (fuel_bound demo) demo (mkCenv 0 0) 0 [VInt 5] (init_sto demo) [] <> XRevert /\
   call_ext (fuel_bound demo) demo (mkCenv 0 0) 0 [VInt 200] (init_sto demo) [] = XRevert /\
-  arith Div 8 true (-128) (-1) = None /\ arith Mod 8 true (-7) 2 = Some (-1).
+  arith Div 8 true (-128) (-1) = None /\ arith Mod 8 true (-7) 2 = Some (-1) /\
+  (* a nested HashMap path: m[5][-1] := 7 leaves m[5][0] and m[6][-1] at the default *)
+  (match set_path [5; -1] (VInt 7) (zero_of (TMap (TInt 256 false) (TMap (TInt 8 true) (TInt 256 false)))) with
+   | Some v' => get_path [5; -1] v' = Some (VInt 7) /\ get_path [5; 0] v' = Some (VInt 0) /\ get_path [6; -1] v' = Some (VInt 0)
+   | None => False end).
 Proof. vm_compute. repeat split; try discriminate. Qed.
